@@ -25,6 +25,29 @@ Definition integral_lit (s : string) : bool :=
 Definition int_text (s : string) : bool :=
   match classify s with LNum y => syn_is_int y | _ => false end.
 
+(* the integer an INTEGRAL float literal denotes, and what strconv.ParseInt / ParseUint make of a text *)
+Definition lit_value (s : string) : Z :=
+  match lit_dec s with
+  | Some d => if 0 <=? de d then dm d * 10 ^ de d else dm d / 10 ^ (- de d)
+  | None => 0
+  end.
+Definition conv_int (k : kind) (t : string) : option Z :=
+  match k with KInt w => parse_int (bits w) t | KUint w => parse_uint (bits w) t | _ => None end.
+Definition int_fits (k : kind) (v : Z) : bool :=
+  match k with
+  | KInt w => (- 2 ^ (bits w - 1) <=? v) && (v <? 2 ^ (bits w - 1))
+  | KUint w => (0 <=? v) && (v <? 2 ^ bits w)
+  | _ => false
+  end.
+(* what a faithful re-rendering of the float literal [s] converts to at an integer position of kind [k]:
+   the integer it denotes if it is integral and fits the kind, nothing otherwise *)
+Definition int_of_lit (k : kind) (s : string) : option Z :=
+  if integral_lit s && int_fits k (lit_value s) then Some (lit_value s) else None.
+Definition int_kinds : list kind :=
+  [KInt W0; KInt W8; KInt W16; KInt W32; KInt W64; KUint W0; KUint W8; KUint W16; KUint W32; KUint W64].
+Definition oz_eqb (a b : option Z) : bool :=
+  match a, b with Some x, Some y => x =? y | None, None => true | _, _ => false end.
+
 Definition fopt_sim (a b : option fval) : bool :=
   match a, b with
   | Some x, Some y => fval_eqb x y
@@ -47,7 +70,10 @@ Definition rf_ok_lit (s s' : string) : bool :=
   && fopt_sim (parse_float false s') (parse_float false s)
   && fopt_sim (parse_float true s') (parse_float true s)
   && fopt_sim (pf32_field s') (pf32_field s)
-  && (integral_lit s || negb (int_text s')).
+  && (integral_lit s || negb (int_text s'))
+  (* at an integer position the re-rendered text converts to the integer the literal denotes, exactly when
+     that integer fits the kind *)
+  && forallb (fun k => oz_eqb (conv_int k s') (int_of_lit k s)) int_kinds.
 
 Section Leaves.
 Variable rf : fmt -> string -> string.
@@ -138,13 +164,21 @@ with fam_fields (fs : fields) : bool :=
 (* ------------------------------------------------------------------ float literals and the kind of their position *)
 
 (* a float-typed value may sit: at a float field or element; at an integer field or element
-   only if it is not integral (then every format rejects it; integral: known finding F8a);
+   unless it is integral AND the integer fits the kind (otherwise every format rejects it; an
+   integral literal in range is accepted by YAML / TOML and rejected by JSON: known finding F8a);
    at a bool / string FIELD (every format rejects it); never at a bool / string slice or map
    ELEMENT (the re-rendered text leaks into the value: known finding F8c) *)
 Definition float_at_field (k : kind) (s : string) : bool :=
-  match k with KInt _ | KUint _ => negb (integral_lit s) | _ => true end.
+  match k with
+  | KInt _ | KUint _ => match int_of_lit k s with None => true | Some _ => false end
+  | _ => true
+  end.
 Definition float_at_elem (k : kind) (s : string) : bool :=
-  match k with KF32 | KF64 => true | KInt _ | KUint _ => negb (integral_lit s) | KBool | KStr => false end.
+  match k with
+  | KF32 | KF64 => true
+  | KInt _ | KUint _ => match int_of_lit k s with None => true | Some _ => false end
+  | KBool | KStr => false
+  end.
 
 Fixpoint flok_present (t : ftype) (d : doc) {struct t} : bool :=
   match t with
